@@ -1,14 +1,27 @@
 """Known findings: loading /verif/known_findings.json and the narrow matchers
 that attribute a model-predicted property failure to a listed finding.  The file
 is never written at run time."""
-import json, os
+import glob, json, os
 
 def load_known(root, pid):
     try:
         data = json.load(open(os.path.join(root, "known_findings.json")))
     except FileNotFoundError:
         return []
-    return [f for f in data.get("findings", []) if f.get("property") == pid]
+    fs = list(data.get("findings", []))
+    for extra in sorted(glob.glob(os.path.join(root, "known_findings.d", "*.json"))):
+        fs += json.load(open(extra)).get("findings", [])
+    _load_matchers(root)
+    return [f for f in fs if f.get("property") == pid]
+
+def _load_matchers(root):
+    import importlib.util
+    for mf in sorted(glob.glob(os.path.join(root, "tools", "matchers.d", "*.py"))):
+        spec = importlib.util.spec_from_file_location("matchers_" + os.path.basename(mf)[:-3], mf)
+        mod = importlib.util.module_from_spec(spec)
+        spec.loader.exec_module(mod)
+        for name, fn in getattr(mod, "MATCHERS", {}).items():
+            MATCHERS[name] = fn
 
 # matcher name -> predicate(input ints, observed ints) -> bool
 MATCHERS = {}
